@@ -7,6 +7,7 @@ import (
 	"fmt"
 	"math"
 	"sort"
+	"sync/atomic"
 	"time"
 
 	"github.com/atlassian/gostatsd"
@@ -60,10 +61,12 @@ type liveSeries struct {
 	acc     *Agg
 	gauge   float64
 	hasData bool // data since the previous flush
+	// maybeGone: the previous flush was stalled and the expiry boundary fell inside the stall
+	maybeGone bool
 }
 
 func (c09) Run(e *Env) {
-	e.ProbeDecl("expired", "reported-idle", "boundary-exact", "revived-after-expiry", "negative-expiry-single-flush", "zero-expiry-long-idle", "data-at-flush-instant", "histogram-timer-series", "small-value-pool", "huge-expiry-long-idle", "several-values-in-one-datagram", "node-variant", "datapoint-over-http", "older-datapoint-after-newer", "datapoint-just-before-a-grid-point")
+	e.ProbeDecl("expired", "reported-idle", "boundary-exact", "revived-after-expiry", "negative-expiry-single-flush", "zero-expiry-long-idle", "data-at-flush-instant", "histogram-timer-series", "small-value-pool", "huge-expiry-long-idle", "several-values-in-one-datagram", "node-variant", "datapoint-over-http", "older-datapoint-after-newer", "datapoint-just-before-a-grid-point", "flush-off-grid", "expiry-boundary-inside-stalled-flush", "stalled-outcome-gone", "stalled-outcome-kept", "flush-delayed-past-a-tick")
 	if e.Chance(1, 4) {
 		c09Node(e) // http ingestion and late maps into the real BackendHandler instead of datagrams into a server
 		return
@@ -81,6 +84,52 @@ func (c09) Run(e *Env) {
 	}
 	expOf := map[string]time.Duration{"counter": cfg.ExpCounter, "gauge": cfg.ExpGauge, "set": cfg.ExpSet, "timer": cfg.ExpTimer}
 	be := &RecBackend{BName: "rec"}
+	// Stalled-flush class (one run in five): the backend holds up some flushes, either in the synchronous
+	// phase (the shard sits between reporting and Reset, and everything sent to it queues) or in the
+	// completion callback (the flusher waits, ticks are missed, the next flush is late and off the grid).
+	// Everything is drawn here, before the first flush; the backend only looks the tables up.
+	stallClass := e.Chance(1, 5)
+	var stallSync, stallCb [64]time.Duration
+	var stallWorker [64]int
+	var stallOn atomic.Bool
+	if stallClass {
+		for i := range stallSync {
+			d := time.Duration(1+e.Draw(30)) * 50 * time.Millisecond
+			if e.Chance(1, 6) {
+				d += time.Duration(e.Draw(50)) * time.Millisecond // off the 50 ms grid as well
+			}
+			switch e.Weighted("c09stall", []int{5, 2, 2}) {
+			case 1:
+				stallSync[i] = d
+				stallWorker[i] = e.Draw(cfg.Workers+1) - 1 // -1: every shard
+			case 2:
+				stallCb[i] = d
+			}
+		}
+		stallOn.Store(true)
+		workers := cfg.Workers
+		be.Stall = func(callIdx int) (time.Duration, time.Duration) {
+			fl := callIdx / workers
+			if !stallOn.Load() || fl >= len(stallSync) {
+				return 0, 0
+			}
+			if stallSync[fl] > 0 && (stallWorker[fl] < 0 || stallWorker[fl] == callIdx%workers) {
+				e.Fault("backend-stalls-shard-before-reset")
+				return stallSync[fl], 0
+			}
+			if stallCb[fl] > 0 && callIdx%workers == 0 {
+				e.Fault("backend-stalls-flush-completion")
+				return 0, stallCb[fl]
+			}
+			return 0, 0
+		}
+	}
+	stallOfFlush := func(idx int) time.Duration {
+		if !stallClass || !stallOn.Load() || idx >= len(stallSync) {
+			return 0
+		}
+		return stallSync[idx]
+	}
 	cfg.Backends = []gostatsd.Backend{be}
 	w := StartW1(cfg)
 	defer w.Stop()
@@ -110,6 +159,17 @@ func (c09) Run(e *Env) {
 		for _, k := range sortedLive(live) {
 			ls := live[k]
 			o := f.Obs[k]
+			if ls.maybeGone {
+				// the expiry boundary fell inside the previous, stalled flush: both outcomes are right (DESIGN 5, C09)
+				ls.maybeGone = false
+				if o == nil {
+					delete(live, k)
+					everExpired[k] = true
+					e.Probe("stalled-outcome-gone")
+					continue
+				}
+				e.Probe("stalled-outcome-kept")
+			}
 			if o == nil {
 				e.Failf("C09/missing-before-expiry", "flush %d at +%v: series %s (last datapoint at +%v, expiry %v) is not reported",
 					f.Idx, f.At.Sub(t0), k, ls.lastTS.Sub(t0), expOf[ls.kind])
@@ -123,7 +183,9 @@ func (c09) Run(e *Env) {
 					e.Failf("C09/counter-value", "flush %d: %s reported %d, expected %d", f.Idx, k, o.Counter, ls.acc.Counter)
 				}
 				want := float64(ls.acc.Counter) / delta.Seconds()
-				if !approx(o.PerSecond, want, 1e-9) {
+				// In the stalled class the flusher's interval is the distance between the ticks it read, not
+				// between the flushes: only the rate of an idle counter (0) is decided there.
+				if (!stallClass || ls.acc.Counter == 0) && !approx(o.PerSecond, want, 1e-9) {
 					e.Failf("C09/counter-rate", "flush %d: %s per-second %v, expected %v", f.Idx, k, o.PerSecond, want)
 				}
 			case "set":
@@ -171,6 +233,12 @@ func (c09) Run(e *Env) {
 				}
 				continue
 			}
+			if st := stallOfFlush(f.Idx); iv != 0 && st > 0 && age+st > iv {
+				// Expiry is decided at Reset, which a stalled shard reaches up to st after it reported.
+				ls.maybeGone = true
+				e.Probe("expiry-boundary-inside-stalled-flush")
+				e.Overlap = true
+			}
 			if iv == 0 && age > 3*time.Second {
 				e.Probe("zero-expiry-long-idle")
 			}
@@ -179,6 +247,12 @@ func (c09) Run(e *Env) {
 			}
 			ls.acc = &Agg{Kind: ls.kind, Members: map[string]struct{}{}}
 			ls.hasData = false
+		}
+		if f.At.Sub(t0)%cfg.Flush != 0 {
+			e.Probe("flush-off-grid")
+		}
+		if f.At.Sub(lastFlushAt) > cfg.Flush+cfg.Flush/2 {
+			e.Probe("flush-delayed-past-a-tick")
 		}
 		lastFlushAt = f.At
 	}
@@ -198,6 +272,12 @@ func (c09) Run(e *Env) {
 		e.State("live=%d flushes=%d", len(live), fc.n)
 		switch e.Weighted("c09", []int{4, 3, 3}) {
 		case 0: // one datapoint, at its own instant
+			if be.Stalling() > 0 {
+				// a shard is held up between reporting and Reset: what is sent now queues behind it and may
+				// be overtaken by the next flush command; which flush carries it is C01's business, not C09's
+				time.Sleep(50 * time.Millisecond)
+				continue
+			}
 			s := series[e.Draw(len(series))]
 			sent++
 			d := GenDP(e, s, ClientIP(0), sent)
@@ -243,6 +323,7 @@ func (c09) Run(e *Env) {
 			}
 			ls.lastTS = now
 			ls.hasData = true
+			ls.maybeGone = false
 			if d.Kind() == "gauge" {
 				ls.gauge = d.Value()
 			}
@@ -260,6 +341,16 @@ func (c09) Run(e *Env) {
 		}
 	}
 	// let everything with a finite expiry run out: enough flushes to pass the largest interval
+	if stallClass {
+		for be.Stalling() > 0 {
+			time.Sleep(50 * time.Millisecond)
+		}
+		e.Settle()
+		for f := fc.next(); f != nil; f = fc.next() {
+			checkFlush(f)
+		}
+		stallOn.Store(false)
+	}
 	for i := 0; i < int(6*time.Second/cfg.Flush)+2 && i < 40; i++ {
 		e.Advance(nextTick())
 		for f := fc.next(); f != nil; f = fc.next() {
